@@ -45,18 +45,16 @@ def clause_open(prog, rep):
         for x in enc:
             # the keying call is checked, and is the first thing done with the connection
             first = True
+            conn_locals = f.flows_from({c.dst[0]}, through_calls=True, stop_calls=lambda z: z.krate not in ("core", "alloc", "std")) if c.dst else set()
+            before_x = A.reach_without_edges(f, c.t["to"], set(), frozenset([x.bb])) if "to" in c.t else set()
             for y in f.live_calls():
-                if y is x or y is c:
+                if y is x or y is c or _is_unwrap(y):
                     continue
-                if y.args and any("p" in a and a["p"][0] in f.flows_from({c.dst[0]}, through_calls=False) for a in y.args):
-                    # another use of the connection: must not be reachable before the keying call on the keyed path
-                    if y.bb in A.reach_without_edges(f, c.t["to"], set(), frozenset([x.bb])) and f.dominates(c.bb, y.bb) and not _is_unwrap(y):
-                        # allowed only on the un-keyed (None) side: i.e. y not reachable from the Some side without x — approximated by dominance of the Option switch
-                        if x.bb in f.reachable_from(c.t["to"]) and f.dominates(x.bb, y.bb):
-                            continue
-                        cds = A.control_dependent_switches(f, x.bb)
-                        if not cds:
-                            first = False
+                if not (y.args and any("p" in a and a["p"][0] in conn_locals for a in y.args)):
+                    continue
+                # another use of the fresh connection that can run first and still be followed by the keying step
+                if y.bb in before_x and x.bb in f.reachable_from(y.bb):
+                    first = False
             rep.check(A.call_is_checked(f, x) and first, "key-first", "open/apply-key", "the key is applied (checked) before any other use of the fresh connection",
                       "the fresh connection is used before / without the checked keying step", x.loc())
             # keyed iff a config is supplied: the keying call is control-dependent on the Option<&EncryptionConfig> argument
